@@ -39,3 +39,88 @@ Theorem C04_xml_tree_builder_never_panics_partial :
   forall rts, XTreeModel.tpanic (XTreeModel.run (map XTreeModel.tokenize rts)) = false.
 Proof. exact XTreeProofs.tree_builder_never_panics. Qed.
 Print Assumptions C04_xml_tree_builder_never_panics_partial.
+
+(* ------------------------------------------------------------------------------------------------------------
+   The tokenizer interpreter TERMINATES, with an explicit fuel bound (TokIR/Termination.v, instantiated on the
+   regenerated html table in Inst/InstTermination.v).  Reference semantics: html flavour, exact_errors = true, flat
+   queue.  SPanic 98 = run() out of fuel, SPanic 97 = the EOF loop of end() out of fuel.
+     html_unread m = |queue| + |temp_buf| in eat states (look-ahead stash) + what a pending character reference may
+                     put back + 1 if the reconsume flag is set;
+     html_fuel T   = (T + 1) * (2 T + 10);
+     HtmlTI        = the control invariant (reconsume only in get_char states and not during a reference; temp_buf
+                     empty in clean states; no reference pending in an eat state): true of every fresh tokenizer,
+                     kept by run / feed / pushed chunks / injected text.
+   Every step that continues decreases (html_unread, rank) lexicographically, under the decidable table conditions
+   C09_step_arms_count_every_line_break (shape), C04_html_arms_make_progress and the three EOF-arm conditions. *)
+From HV Require Import TokIR.LineInv TokIR.Termination Inst.InstLine Inst.InstTermination.
+
+Theorem C04_html_fuel_bound : forall T, html_fuel T = ((T + 1) * (2 * T + 10))%nat.
+Proof. exact html_fuel_eq. Qed.
+Print Assumptions C04_html_fuel_bound.
+
+Theorem C04_html_fresh_tokenizer_satisfies_invariant :
+  forall s0 last q o k, HtmlTI (mkmach (init_cfg s0 last false) q o k) /\
+                        html_unread (mkmach (init_cfg s0 last false) q o k) = length q.
+Proof. exact (fun s0 last q o k => conj (html_TI_init s0 last q o k) (html_unread_init s0 last q o k)). Qed.
+Print Assumptions C04_html_fresh_tokenizer_satisfies_invariant.
+
+(* run() - before or after end() - with fuel >= the bound never runs out of fuel; it keeps the invariant and does not
+   increase the measure, so the bound composes over successive calls *)
+Theorem C04_html_tokenizer_run_terminates :
+  forall simd ent c1 sk at_eof fuel m,
+  HtmlTI m -> (html_fuel (html_unread m) <= fuel)%nat ->
+  let r := run [] fq_next fq_peek (@app N) (fun q => q) fq_run1 html_flavour true html_table simd ent c1 sk at_eof fuel m in
+  HtmlTI (fst r) /\ (html_unread (fst r) <= html_unread m)%nat /\ snd r <> SPanic 98 /\ snd r <> SPanic 97.
+Proof. exact html_run_terminates. Qed.
+Print Assumptions C04_html_tokenizer_run_terminates.
+
+(* end(): the character-reference flush, the final run and the EOF loop *)
+Theorem C04_html_tokenizer_end_terminates :
+  forall simd ent c1 sk fuel m,
+  HtmlTI m -> (html_fuel (html_unread m) <= fuel)%nat -> (4 <= fuel)%nat ->
+  let r := tok_end [] fq_next fq_peek (@app N) (fun q => q) fq_run1 html_flavour true html_table simd ent c1 sk fuel m in
+  snd r <> SPanic 98 /\ snd r <> SPanic 97.
+Proof. exact html_end_terminates. Qed.
+Print Assumptions C04_html_tokenizer_end_terminates.
+
+(* the whole driver, any chunking, any sink answers, text injected at script pauses (at most 50 pauses per chunk, the
+   bound of feed_loop): fuel computed from the total input length is enough for every feed call, for end() and for
+   its EOF loop *)
+Theorem C04_html_driver_terminates :
+  forall simd ent c1 sk fuel inj chunks s0 last,
+  (html_fuel (length (concat chunks) + length chunks * (50 * length inj)) <= fuel)%nat -> (4 <= fuel)%nat ->
+  let log := snd (drive_flat html_flavour true html_table simd ent c1 sk fuel inj chunks
+                             (mkmach (init_cfg s0 last false) [] [] 0%N) []) in
+  ~ In (SPanic 98) log /\ ~ In (SPanic 97) log.
+Proof. exact html_drive_terminates. Qed.
+Print Assumptions C04_html_driver_terminates.
+
+Theorem C04_html_driver_terminates_from_any_machine :
+  forall simd ent c1 sk fuel inj chunks m,
+  HtmlTI m ->
+  (html_fuel (html_unread m + length (concat chunks) + length chunks * (50 * length inj)) <= fuel)%nat ->
+  (4 <= fuel)%nat ->
+  let log := snd (drive_flat html_flavour true html_table simd ent c1 sk fuel inj chunks m []) in
+  ~ In (SPanic 98) log /\ ~ In (SPanic 97) log.
+Proof. exact html_drive_terminates_from. Qed.
+Print Assumptions C04_html_driver_terminates_from_any_machine.
+
+(* the decidable table conditions, on the regenerated table *)
+Theorem C04_html_arms_make_progress : forall s, pchk html_rank s false (t_step html_table s) = true.
+Proof. exact html_progress_all. Qed.
+Print Assumptions C04_html_arms_make_progress.
+
+Theorem C04_html_eof_arms_reach_a_stop :
+  forall s, eof_ok (t_eof html_table s) = true /\ notag (t_eof html_table s) = true /\ edepth html_table 4 s = true.
+Proof. exact (fun s => conj (html_eof_ok_all s) (conj (html_eof_notag_all s) (html_eof_depth_all s))). Qed.
+Print Assumptions C04_html_eof_arms_reach_a_stop.
+
+(* non-vacuity (a test, by computation): 12 characters run with exactly the bound, 442 *)
+Example C04_termination_example :
+  html_fuel (length term_ex_input) = 442%nat /\
+  snd (drive_flat html_flavour true html_table (simd_first_guard, simd_tail_stop, simd_tail_newline)
+                  (fun _ => None) (fun _ => None) {| sk_resp := []; sk_foreign := false |}
+                  (html_fuel (length term_ex_input)) [] [term_ex_input]
+                  (mkmach (init_cfg HData None false) [] [] 0%N) []) = [SSuspend; SSuspend].
+Proof. exact term_ex. Qed.
+Print Assumptions C04_termination_example.
